@@ -2066,6 +2066,17 @@ function indexKeyMatches(ctx: ValidateContext, key: Runtype, name: string): bool
   return key.validate(ctx, name) || (String(Number(name)) === name && key.validate(ctx, Number(name)));
 }
 
+// `target[key] = value` does not define a property when the key is `__proto__`: it goes through the setter
+// inherited from Object.prototype (which replaces the prototype, or does nothing for a primitive value).
+// JSON.parse creates own `__proto__` properties, so such keys do reach the parsers.
+function setOwnProperty(target: Record<string, unknown>, key: string, value: unknown): void {
+  if (key === "__proto__") {
+    Object.defineProperty(target, key, { value, writable: true, enumerable: true, configurable: true });
+  } else {
+    target[key] = value;
+  }
+}
+
 export class ObjectRuntype extends BaseRuntype {
   private properties: Record<string, Runtype>;
   private indexedPropertiesParser: Array<{
@@ -2235,7 +2246,7 @@ export class ObjectRuntype extends BaseRuntype {
     if (ctx.objectKeyOrder === "input") {
       for (const k of inputKeys) {
         if (hasOwn.call(this.properties, k)) {
-          acc[k] = this.properties[k].parseAfterValidation(ctx, input[k]);
+          setOwnProperty(acc, k, this.properties[k].parseAfterValidation(ctx, input[k]));
           continue;
         }
 
@@ -2245,7 +2256,7 @@ export class ObjectRuntype extends BaseRuntype {
           if (isValid) {
             const itemParsed = p.value.parseAfterValidation(ctx, v);
             const keyParsed = p.key.parseAfterValidation(ctx, k);
-            acc[keyParsed as any] = itemParsed;
+            setOwnProperty(acc, keyParsed as any, itemParsed);
           }
         }
       }
@@ -2253,7 +2264,7 @@ export class ObjectRuntype extends BaseRuntype {
       // the ones that are not enumerable own keys of the input follow those
       for (const k of Object.keys(this.properties)) {
         if (!hasOwn.call(acc, k) && k in input) {
-          acc[k] = this.properties[k].parseAfterValidation(ctx, input[k]);
+          setOwnProperty(acc, k, this.properties[k].parseAfterValidation(ctx, input[k]));
         }
       }
     } else {
@@ -2265,7 +2276,7 @@ export class ObjectRuntype extends BaseRuntype {
         }
         const v = input[k];
         const itemParsed = this.properties[k].parseAfterValidation(ctx, v);
-        acc[k] = itemParsed;
+        setOwnProperty(acc, k, itemParsed);
       }
 
       if (this.indexedPropertiesParser.length > 0) {
@@ -2277,7 +2288,7 @@ export class ObjectRuntype extends BaseRuntype {
             if (isValid) {
               const itemParsed = p.value.parseAfterValidation(ctx, v);
               const keyParsed = p.key.parseAfterValidation(ctx, k);
-              acc[keyParsed as any] = itemParsed;
+              setOwnProperty(acc, keyParsed as any, itemParsed);
             }
           }
         }
